@@ -231,12 +231,33 @@ def asyncreplay_cells(h, im, diff):
     return out
 
 
+def asyncclose_cells(h, im, diff):
+    """clean shutdown during an asynchronous replay: the shard was closed while the replay was held (cancelled); a failing cell
+    is explained when the value wanted was written by a request whose record sits in the image's live log - the log files
+    the cancelled replay's cleanup removed"""
+    a = im.get("async")
+    if not a or not a.get("closed") or not diff:
+        return []
+    live = [i for p in (im.get("parts") or []) for i in p]
+    out = []
+    for c in diff:
+        if not c["wok"]:
+            continue
+        logged = [v for (i, v) in writes_to(h, im["acked"], im["inflight"] if im["inflight"] >= 0 else None, c) if i in live]
+        if c["want"] in logged:
+            out.append(c)
+    return out
+
+
 def classify(h, im, dff, code, parent_torn):
     """ids of the known findings that together explain EVERY failing cell, or [] """
     if not dff:
         if im.get("err") and "open after crash failed" in im["err"] and im.get("txn", 0) >= 2:
             return ["C01-idxtxn"]
         return ["C01-walheadereof"] if parent_torn == WAL_HEAD else []
+    cc = asyncclose_cells(h, im, dff)
+    if cc and len(cc) == len(dff):
+        return ["C01-asyncclose"]
     ac = asyncreplay_cells(h, im, dff)
     rest = [c for c in dff if c not in ac]
     fids = ["C01-asyncreplay"] if ac else []
@@ -388,7 +409,7 @@ def main(ck):
                     idx, len(codes.get(hi) or []), len(hs[hi]["images"]), hs[hi]["case"], o[-300:]))
     # ---- verdicts ----
     nimg = 0
-    fail_known = {"C01-walphase": 0, "C01-asyncreplay": 0, "C01-idxtxn": 0, "C01-walheadereof": 0}
+    fail_known = {"C01-walphase": 0, "C01-asyncreplay": 0, "C01-asyncclose": 0, "C01-idxtxn": 0, "C01-walheadereof": 0}
     nviol = 0
     model_disagree = []
     crashk = {}
@@ -397,6 +418,7 @@ def main(ck):
     nasync = {"images": 0, "drop_refused": 0, "extra_writes": 0}
     what_known = {"C01-walphase": "an acknowledged overwrite is reverted to an older acknowledged value after crash + restart (WAL replay order)",
                   "C01-asyncreplay": "wal-replay-async: a write acknowledged while the log is still being re-applied is reverted to the older logged value by the replay",
+                  "C01-asyncclose": "wal-replay-async: a clean shutdown while the log is still being re-applied removes the unread log files: acknowledged rows are gone after the restart",
                   "C01-idxtxn": "shard cannot be opened after a crash that leaves two pending series-index transaction files",
                   "C01-walheadereof": "a torn WAL record consisting of exactly its 5 header bytes makes replay apply stale buffer contents"}
     for hi, h in enumerate(hs):
@@ -439,6 +461,8 @@ def main(ck):
                         model_disagree.append((h, j, "a refused DROP MEASUREMENT left the measurement's deleting mark set (model: C01_refused_drop_changes_nothing)"))
                 if a.get("extra") and a["extra_acked"]:
                     nasync["extra_writes"] += 1
+                if a.get("closed"):
+                    nasync["closed_during_replay"] = nasync.get("closed_during_replay", 0) + 1
                 if not im.get("err") and not a.get("live"):
                     failures.append(("rows read from the re-opened shard after its asynchronous replay finished differ from the acknowledged last-write-wins state: %s"
                                      % json.dumps((a.get("live_diff") or [])[:3]), a.get("live_diff") or []))
